@@ -1025,9 +1025,10 @@ def eqread_chunk(arg):
                 if how == 'a == b' and pa:
                     acc.c['left_operand_with_pending_queue'] += 1
                 if obs is not exp:
-                    stale = ('right-operand-with-pending-queue-compared-stale' if (how in ('a == b', 'a != b') and pb) else
-                             'left-operand-of-reflected-comparison-with-pending-queue-compared-stale' if (how == 'b == a' and pa) else 'other')
-                    acc.viol('C13:%s:eqread:%s:%s' % (clsname, how.replace(' ', ''), stale),
+                    # one defect class: the operand that is not `self` of the comparison still has additions pending
+                    other_pending = pa if how == 'b == a' else pb if how != 'a == list' else False
+                    acc.viol('C13:eqread:other-operand-with-pending-queue-compared-stale' if other_pending
+                             else 'C13:%s:eqread:%s:wrong' % (clsname, how.replace(' ', '')),
                              '%s gave %r, the eager lists %r and %r say %r, after a: %s; b: %s' % (
                                  how, obs, M['a'], M['b'], exp, '; '.join(opname(o) for o in ha), '; '.join(opname(o) for o in hb)),
                              {'cls': clsname, 'eqread': {'a': [list(map(list_or, o)) for o in ha], 'b': [list(map(list_or, o)) for o in hb]}})
@@ -1382,6 +1383,7 @@ def main():
         bounds.append('seqread: all sequences <= 2 over the operations of each class x %d readers' % (len(SEQ_READERS),))
 
     lib_cases = 0
+    lib_reported = set()
     if ck.want('libfile'):
         ldepth = ck.q(2, 3)
         for clsname in classes:
@@ -1404,7 +1406,9 @@ def main():
                 tot.update(c)
                 vcount += sum(vn.values())
                 for key, what, rp in v:
-                    ck.violation(key, what, rp)
+                    if key not in lib_reported:     # the first (shortest) case of every key; all are counted in `violating`
+                        lib_reported.add(key)
+                        ck.violation(key, what, rp)
             lib_cases += n
             traces += n
             total_trans += tot['steps']
@@ -1423,6 +1427,7 @@ def main():
                    'expected': ['-Ia', LIB_SHAPES[13][1], '-Wall']})
 
     eq_cases = 0
+    eq_reported = set()
     if ck.want('eqread'):
         for clsname in classes:
             has = pair_histories(clsname, 2)
@@ -1436,7 +1441,9 @@ def main():
                 found.extend(v)
             found.sort(key=lambda x: len(x[2]['eqread']['a']) + len(x[2]['eqread']['b']))
             for key, what, rp in found:
-                ck.violation(key, what, rp)
+                if key not in eq_reported:          # the shortest case of every key
+                    eq_reported.add(key)
+                    ck.violation(key, what, rp)
             eq_cases += tot['comparisons']
             traces += tot['comparisons']
             total_trans += tot['comparisons']
@@ -1521,8 +1528,6 @@ def replay(ck):
         print('replay: class=%s, a: %s; b: %s; then the comparisons, each on freshly built objects' % (
             clsname, '; '.join(opname(o) for o in ha), '; '.join(opname(o) for o in hb)))
         PAIR_HIST[clsname, 2] = [hb]
-        acc = Acc()
-        eqread_chunk((clsname, 2, [ha]))
         c, v, vn = eqread_chunk((clsname, 2, [ha]))
         for k, what, rp in v:
             print('  STILL VIOLATES %s: %s' % (k, what))
